@@ -119,6 +119,18 @@ def handle_search(job):
                     except Exception as e:
                         o['calls'].append([kind, form, pos, norm_on, saf, lemkind, cands,
                                            'exc:' + exc_name(e), []])
+                    # the module-level functions are the same search with the defaults
+                    # (normalizer on, all forms, no lemmatizer)
+                    if norm_on and saf and lemkind == 'none':
+                        try:
+                            res = getattr(wn, kind)(form, pos=pa, lexicon=scope)
+                            o['calls'].append([kind, form, pos, norm_on, saf, lemkind, cands,
+                                               'ok', [x.id for x in res]])
+                        except JobTimeout:
+                            raise
+                        except Exception as e:
+                            o['calls'].append([kind, form, pos, norm_on, saf, lemkind, cands,
+                                               'exc:' + exc_name(e), []])
         except JobTimeout:
             out.append({'id': case['id'], 'timeout': True})
             continue
